@@ -1,9 +1,9 @@
 (** C07 (tie A) -- structural facts extracted from the current source (het_block.py, stage_block.py, function.py) by
     tools/translate.py on which the loop models of this property rely: backward/forward steady-state iterations test every
-    10th iteration, over ALL policy (HetBlock) resp. ALL backward (StageBlock) variables, and raise when the limit is reached. *)
+    10th iteration; every call of a bundled or scipy solver in solve_for_unknowns is handed the requested tolerance;, over ALL policy (HetBlock) resp. ALL backward (StageBlock) variables, and raise when the limit is reached. *)
 From Coq Require Import Bool.
-From SSJ Require Import Gen.HetFacts.
+From SSJ Require Import Gen.HetFacts Gen.Solvers.
 Theorem code_facts_C07 : backward_steady_state_shape = true /\ forward_steady_state_shape = true /\ aggregates_weight_by_D = true /\
-  stage_backward_steady_state_shape = true.
+  stage_backward_steady_state_shape = true /\ every_solver_call_receives_the_tolerance = true.
 Proof. repeat split; reflexivity. Qed.
 Print Assumptions code_facts_C07.
